@@ -39,7 +39,7 @@ def run(chk):
     cdir = os.path.join(fw.VERIF, "corpus", "C09")
     progs = [open(os.path.join(cdir, f)).read() for f in sorted(os.listdir(cdir))] if os.path.isdir(cdir) else []
     for _ in range(3000 if thorough else 350):
-        progs.append(gen_cascade.gen_program(rng) if rng.random() < 0.85 else rng.choice(base))
+        progs.append(gen_cascade.gen_any(rng) if rng.random() < 0.85 else rng.choice(base))
     ops = []
     for p in progs:
         s, m = rng.random() < 0.8, rng.random() < 0.8
